@@ -323,6 +323,10 @@ impl IdWorld {
 fn tree_names(x: &Xot, root: Node) -> Vec<(String, String)> {
     let mut out = vec![];
     for n in x.descendants(root).take(5000) {
+        if let Some(pi) = x.processing_instruction(n) {
+            let (l, u) = x.name_ns_str(pi.target());
+            out.push((format!("?{}", l), u.to_string()));
+        }
         if let Some(e) = x.element(n) {
             let (l, u) = x.name_ns_str(e.name());
             out.push((l.to_string(), u.to_string()));
@@ -340,10 +344,23 @@ fn resolved_names(text: &str) -> Option<Vec<(String, String)>> {
     let evs = xmlscan::scan(text).ok()?;
     let r = xmlscan::resolve(&evs).ok()?;
     let mut out = vec![];
-    for e in r {
-        out.push((e.local.clone(), e.uri.clone()));
-        for (l, u, _) in e.attrs {
-            out.push((format!("@{}", l), u));
+    let mut it = r.into_iter();
+    for ev in &evs {
+        match ev {
+            xmlscan::Ev::Start { .. } => {
+                let e = it.next()?;
+                out.push((e.local.clone(), e.uri.clone()));
+                for (l, u, _) in e.attrs {
+                    out.push((format!("@{}", l), u));
+                }
+            }
+            // a processing-instruction target is a name in no namespace, wherever it stands
+            // (malformed PIs - junk right after the target - are C03's subject: only the name counts)
+            xmlscan::Ev::PI(t, _) => {
+                let name: String = t.chars().take_while(|c| c.is_alphanumeric() || matches!(c, '-' | '_' | '.' | ':')).collect();
+                out.push((format!("?{}", name), String::new()))
+            }
+            _ => {}
         }
     }
     Some(out)
@@ -415,6 +432,14 @@ fn apply(w: &mut IdWorld, op: &IdOp, stats: &mut Stats, rng_salt: u64) -> Result
                     }
                     // the ids in the tree are the registered ids of their expanded names
                     for n in w.x.descendants(root).take(5000).collect::<Vec<_>>() {
+                        if let Some(pi) = w.x.processing_instruction(n) {
+                            let id = pi.target();
+                            let (l, u) = w.x.name_ns_str(id);
+                            let (l, u) = (l.to_string(), u.to_string());
+                            let nsid = w.x.namespace_for_name(id);
+                            w.rec_ns(&u, nsid)?;
+                            w.rec_nm(&l, &u, id)?;
+                        }
                         if let Some(e) = w.x.element(n) {
                             let id = e.name();
                             let (l, u) = w.x.name_ns_str(id);
